@@ -169,7 +169,9 @@ pub fn gen_pkg(rng: &mut Rng, name: &str, n_files: usize, dirty: bool) -> Pkg {
       0 => "/mod.ts".to_string(),
       1 => "/types.ts".to_string(),
       2 => "/lib/util.ts".to_string(),
-      _ => format!("/lib/extra{}.ts", fi),
+      // dot-prefixed directory and file names
+      3 => "/.internal/extra3.ts".to_string(),
+      _ => format!("/lib/.hidden{}.ts", fi),
     };
     let n_decls = rng.range(2, 7);
     let mut decls = vec![];
@@ -408,6 +410,13 @@ pub fn public_set(p: &Pkg) -> BTreeSet<(usize, usize)> {
 /// `ns_includes_default = false` models an implementation that forgets that
 /// `export * as ns from "./x"` makes x's default export reachable as ns.default
 pub fn public_set_opt(p: &Pkg, ns_includes_default: bool) -> BTreeSet<(usize, usize)> {
+  public_set_detail(p, ns_includes_default).0
+}
+
+/// (declarations reachable from the public API, declarations that are
+/// exports of the API themselves — for a namespace: all of its exported
+/// members are public, not just the one a signature names)
+pub fn public_set_detail(p: &Pkg, ns_includes_default: bool) -> (BTreeSet<(usize, usize)>, BTreeSet<(usize, usize)>) {
   let used = used_sig_refs(p);
   // declarations that are exports of the package API themselves (as opposed
   // to being pulled in by a reference); computed to a fixpoint because a
@@ -471,7 +480,7 @@ pub fn public_set_opt(p: &Pkg, ns_includes_default: bool) -> BTreeSet<(usize, us
       }
     }
     if api_exported == before {
-      return public;
+      return (public, api_exported);
     }
   }
 }
@@ -671,11 +680,15 @@ pub fn render_file(p: &Pkg, f: usize) -> String {
         let p1 = match d.dirty {
           Some(Dirty::UntypedParam) => "a".to_string(),
           Some(Dirty::DestructuredParam) => "{ a, b }".to_string(),
+          // an unannotated parameter whose type is inferred from `expr as T`,
+          // followed by a required one (its default must not survive)
+          _ if v % 11 == 3 => format!("a = compute(0) as {}, a2: {}", t(1), t(1)),
           _ => format!("a: {}", t(1)),
         };
         let p2 = match v % 4 {
           _ if d.dirty == Some(Dirty::UntypedRestParam) => ", ...rest".to_string(),
           0 => format!(", b?: {}", t(2)),
+          1 if v % 3 == 0 => format!(", b: {} = undefined as any, ...rest: {}", t(2), arr(2)),
           1 => format!(", b: {} = undefined as any", t(2)),
           2 => format!(", ...rest: {}", arr(2)),
           _ => String::new(),
@@ -802,8 +815,12 @@ pub fn render_file(p: &Pkg, f: usize) -> String {
           // heritage clauses take entity names, not `import("..")` types
           cx.name_of(r, false, &mut imports.borrow_mut())
         });
+        let keyed = v % 4 == 1;
+        if keyed {
+          body.push_str(&format!("const KEY_{}: unique symbol = Symbol();\n", d.name));
+        }
         body.push_str(&format!(
-          "{}interface {}{}{} {{\n  a: {};\n  readonly b?: {};\n  m(x: {}): {};\n{}  [key: string]: unknown;\n}}\n",
+          "{}interface {}{}{} {{\n  a: {};\n  readonly b?: {};\n  m(x: {}): {};\n{}{}  [key: string]: unknown;\n}}\n",
           ex,
           d.name,
           if v % 3 == 0 { "<T = string>" } else { "" },
@@ -813,11 +830,18 @@ pub fn render_file(p: &Pkg, f: usize) -> String {
           t(2),
           t(0),
           ns_types.iter().enumerate().map(|(i, n)| format!("  w{}: {};\n", i, n)).collect::<String>(),
+          if keyed { format!("  [KEY_{}](o: number): void;\n", d.name) } else { String::new() },
         ));
       }
       DK::TypeAlias => {
+        let keyed = v % 4 == 1;
+        if keyed {
+          // value-only declarations referenced only as computed keys of
+          // members of a type literal
+          body.push_str(&format!("const KEY_{}: unique symbol = Symbol();\nconst KEYP_{}: unique symbol = Symbol();\n", d.name, d.name));
+        }
         body.push_str(&format!(
-          "{}type {}{} = {}{} | {} | {{ x: {}; y?: readonly {}[] }} | ((arg: {}) => {}) | Map<string, {}> | `pre-${{string}}` | {}null;\n",
+          "{}type {}{} = {}{} | {} | {{ x: {}; y?: readonly {}[]{} }} | ((arg: {}) => {}) | Map<string, {}> | `pre-${{string}}` | {}null;\n",
           ex,
           d.name,
           if v % 3 == 0 { "<T = number>" } else { "" },
@@ -826,6 +850,7 @@ pub fn render_file(p: &Pkg, f: usize) -> String {
           arr(1),
           t(2),
           "string",
+          if keyed { format!("; [KEY_{}](o: number): void; readonly [KEYP_{}]: number", d.name, d.name) } else { String::new() },
           t(1),
           t(2),
           t(0),
